@@ -85,13 +85,19 @@ class TreeGen:
         rank = self.pick(ranks)
         dt = self.dtype(dtypes)
         shape = (n, ) if rank == 1 else (n, self.integer(1, 3))
-        return enc(self.array(shape, dt))
+        e = enc(self.array(shape, dt))
+        if rank == 2 and self.integer(1, 4) == 1:
+            e["order"] = "F"  # column-major operand (what X.T, scipy routines and other operators hand over)
+        return e
 
     def left_operand(self, n, dtypes=None, ranks=(1, 2)):
         rank = self.pick(ranks)
         dt = self.dtype(dtypes)
         shape = (n, ) if rank == 1 else (self.integer(1, 3), n)
-        return enc(self.array(shape, dt))
+        e = enc(self.array(shape, dt))
+        if rank == 2 and self.integer(1, 4) == 1:
+            e["order"] = "F"
+        return e
 
     # ------------------------------------------------------------------ generic trees
     def op(self, r, c, depth):
@@ -207,12 +213,21 @@ class TreeGen:
     def k_prod(self, r, c, d):
         nf = self.integer(2, 3)
         dims = [r] + [self.dim() for _ in range(nf - 1)] + [c]
-        return {"k": "prod", "via": self.pick(["op", "op", "ctor"]),
-                "ch": [self.op(dims[i], dims[i + 1], d) for i in range(nf)]}
+        return self._share_last({"k": "prod", "via": self.pick(["op", "op", "ctor"]),
+                                 "ch": [self.op(dims[i], dims[i + 1], d) for i in range(nf)]},
+                                same_shape=(dims[0], dims[1]) == (dims[-2], dims[-1]))
+
+    def _share_last(self, node, same_shape=True):
+        """now and then the last child is the very same operator object as the first (A + A, kron(A, B, A), A @ A)"""
+        ch = node["ch"]
+        if same_shape and len(ch) >= 2 and "share" not in self.avoid and self.integer(1, 6) == 1:
+            ch[-1] = ch[0]
+            node["share"] = [[0, len(ch) - 1]]
+        return node
 
     def k_sum(self, r, c, d):
         nf = self.integer(2, 3)
-        return {"k": "sum", "via": self.pick(["op", "op", "ctor", "builtin"]), "ch": [self.op(r, c, d) for _ in range(nf)]}
+        return self._share_last({"k": "sum", "via": self.pick(["op", "op", "ctor", "builtin"]), "ch": [self.op(r, c, d) for _ in range(nf)]})
 
     def k_kron(self, r, c, d):
         splits = self.kron_splits(r, c)
@@ -225,12 +240,13 @@ class TreeGen:
             ch += [self.op(a2, b2, d), self.op(r2 // a2, c2 // b2, d)]
         else:
             ch.append(self.op(r2, c2, d))
-        return {"k": "kron", "via": self.pick(["fn", "fn", "ctor"]), "ch": ch}
+        first, last = (a, b), ((r2, c2) if len(ch) == 2 else (r2 // a2, c2 // b2))
+        return self._share_last({"k": "kron", "via": self.pick(["fn", "fn", "ctor"]), "ch": ch}, same_shape=first == last)
 
     def k_kronsum(self, r, c, d):
         a = self.pick([x for x in divisors(r) if 1 < x < r])
         ch = [self.op(a, a, d), self.op(r // a, r // a, d)]
-        return {"k": "kronsum", "via": self.pick(["fn", "fn", "ctor"]), "ch": ch}
+        return self._share_last({"k": "kronsum", "via": self.pick(["fn", "fn", "ctor"]), "ch": ch}, same_shape=a == r // a)
 
     def bd_layout(self, r, c):
         """Block shapes and multiplicities with sum m_i r_i = r and sum m_i c_i = c."""
